@@ -4,6 +4,7 @@ import (
 	"fmt"
 	"go/ast"
 	"go/token"
+	"strconv"
 	"go/types"
 	"os"
 	"path/filepath"
@@ -125,6 +126,25 @@ func loadProgram(repo string, extraPkgs ...string) (*Program, error) {
 	}
 	P.findImplementers()
 	P.internString("")
+	// every string literal of the loaded packages gets its code up front (strings.HasSuffix / HasPrefix / Contains are
+	// decided on these; any other string is left open)
+	var lits []string
+	for _, p := range P.Pkgs {
+		for _, f := range p.Syntax {
+			ast.Inspect(f, func(n ast.Node) bool {
+				if bl, ok := n.(*ast.BasicLit); ok && bl.Kind == token.STRING {
+					if v, err := strconv.Unquote(bl.Value); err == nil {
+						lits = append(lits, v)
+					}
+				}
+				return true
+			})
+		}
+	}
+	sort.Strings(lits)
+	for _, v := range lits {
+		P.internString(v)
+	}
 	// error-valued package-level variables (errors.New results): distinct non-nil constants
 	var names []string
 	byName := map[string]*ssa.Global{}
